@@ -156,6 +156,7 @@ def check_case(ctx, case, record=True, only=None):
     if record:
         ctx.count("cases")
         ctx.count("op_stream_len", k=n_ops)
+        ctx.count(*["world:" + c for c in regcommon.spec_classes(spec)])
     for k, mode in cuts:
         check_cut(ctx, case, snap, op, k, mode, base_writes, n_ops, record)
 
